@@ -100,13 +100,37 @@ Section Resp.
       exists (pv :: pvs). simpl. rewrite Hp, Hps. repeat split; auto.
   Qed.
 
+  Lemma resp_list : forall ts, Forall resp ts -> forall e, Forall (bound e) ts -> forall (pf : nat -> list ikey) n ds1 rest vs r,
+    forallb2 valid_p (flat_mapi (fun i x => pts all (pf i) x) n ts) ds1 = true ->
+    trav_list sdec ts (ds1 ++ rest) = Ok (vs, r) ->
+    exists pvs, opt_map_all to_pv vs = Some pvs /\ Forall (T.accepts e) pvs /\ length pvs = length ts.
+  Proof.
+    induction 1 as [|t ts Ht _ IH]; intros e HB pf n ds1 rest vs r Hv Hd.
+    - simpl in Hd. inv Hd. exists []; simpl; auto.
+    - apply Forall_cons_iff in HB as [HB1 HB2].
+      rewrite flat_mapi_cons in Hv. apply forallb2_app_l in Hv as (d1 & d2 & -> & H1 & H2).
+      rewrite <- app_assoc, trav_list_cons in Hd.
+      pose proof (dec_good cdec all t (pf n) d1 (d2 ++ rest) H1) as G.
+      destruct (sdec t (d1 ++ d2 ++ rest)) as [[v1 r1]|] eqn:E1; try discriminate. destruct G as (-> & _).
+      destruct (trav_list sdec ts (d2 ++ rest)) as [[vs2 r2]|] eqn:E2; try discriminate. inv Hd.
+      destruct (Ht e (pf n) d1 (d2 ++ rest) v1 (d2 ++ rest) HB1 H1 E1) as (pv & Hp & Ha).
+      destruct (IH e HB2 pf (S n) d2 rest vs2 r H2 E2) as (pvs & Hps & Has & Hl).
+      exists (pv :: pvs). simpl. rewrite Hp, Hps. repeat split; auto.
+  Qed.
+
   Lemma decode_respects : forall t, resp t.
   Proof.
     induction t using tmpl_ind'; intros sp p ds1 rest v r HB Hv Hd.
     - match type of HB with bound _ ?t => change (hypers_of t = [] /\ exists v0, to_pv t = Some v0 /\ T.accepts sp v0) in HB end. destruct HB as [Hc Ha]. exact (resp_const _ sp _ v r Hc Ha Hd).
     - match type of HB with bound _ ?t => change (hypers_of t = [] /\ exists v0, to_pv t = Some v0 /\ T.accepts sp v0) in HB end. destruct HB as [Hc Ha]. exact (resp_const _ sp _ v r Hc Ha Hd).
     - match type of HB with bound _ ?t => change (hypers_of t = [] /\ exists v0, to_pv t = Some v0 /\ T.accepts sp v0) in HB end. destruct HB as [Hc Ha]. exact (resp_const _ sp _ v r Hc Ha Hd).
-    - match type of HB with bound _ ?t => change (hypers_of t = [] /\ exists v0, to_pv t = Some v0 /\ T.accepts sp v0) in HB end. destruct HB as [Hc Ha]. exact (resp_const _ sp _ v r Hc Ha Hd).
+    - (* list *) cbn [bound] in HB. destruct HB as [[Hc Ha]|HB]; [exact (resp_const _ sp _ v r Hc Ha Hd)|].
+      destruct sp as [?|? ? ?|? ? ?|?|? ?|e mn mx m|? ? ? ?|? ?|? ?|? ?|?]; try contradiction. destruct HB as (F & S & HB).
+      apply all_P_Forall in HB. simpl in Hv. rewrite sdec_list in Hd.
+      destruct (trav_list sdec ts (ds1 ++ rest)) as [[vs r']|] eqn:E; inv Hd.
+      destruct (resp_list ts H e HB (fun i => p ++ [KIdx i]) 0 ds1 rest vs r Hv E) as (pvs & Hp & Ha & Hl).
+      exists (T.PList pvs). split; [simpl; rewrite Hp; reflexivity|].
+      apply accepts_list; auto. unfold T.len. rewrite Hl. exact S.
     - (* oneof *) simpl in HB. apply all_P_Forall in HB. simpl in Hv. rewrite sdec_oneof in Hd.
       destruct ds1 as [|x ds1]; simpl in Hv; try discriminate.
       apply andb_true_iff in Hv as [Hx Hn]. destruct ds1; [|discriminate Hn].
